@@ -110,6 +110,7 @@ func drawRule(rng *rand.Rand) *faultRule {
 	tables := map[base.FileType]bool{base.FileTypeTable: true, base.FileTypeBlob: true}
 	rules := []faultRule{
 		{Name: "read-table", Kinds: errorfs.MakeOpKinds(errorfs.OpFileReadAt, errorfs.OpFileRead), FileTypes: tables},
+		{Name: "read-table", Kinds: errorfs.MakeOpKinds(errorfs.OpFileReadAt, errorfs.OpFileRead), FileTypes: tables},
 		{Name: "open-table", Kinds: errorfs.MakeOpKinds(errorfs.OpOpen, errorfs.OpFileStat, errorfs.OpStat), FileTypes: tables},
 		{Name: "write-table", Kinds: errorfs.MakeOpKinds(errorfs.OpFileWrite, errorfs.OpFileWriteAt, errorfs.OpFileFlush), FileTypes: tables},
 		{Name: "sync-table", Kinds: errorfs.MakeOpKinds(errorfs.OpFileSync, errorfs.OpFileSyncData, errorfs.OpFileSyncTo), FileTypes: tables},
@@ -169,7 +170,11 @@ func RunFaultHistory(R *vcommon.Report, k dbcheck.Knobs, caseIdx int, rng *rand.
 		errs := 0
 		for i := 0; i < 24 && !run.Failed(); i++ {
 			var e bool
-			switch x := rng.IntN(14); {
+			x := rng.IntN(15)
+			if (rule.Name == "read-table" || rule.Name == "any-table-io") && rng.IntN(2) == 0 {
+				x = 12 // read faults: mostly drive the long-lived iterator
+			}
+			switch {
 			case x >= 12:
 				run.SurvivorSeeks(surv, 3, true)
 			case x < 3:
@@ -190,7 +195,7 @@ func RunFaultHistory(R *vcommon.Report, k dbcheck.Knobs, caseIdx int, rng *rand.
 		fi.set(nil)
 		fired := fi.fired.Load() - before
 		// the long-lived iterator must work again, and correctly
-		run.SurvivorSeeks(surv, 8, false)
+		run.SurvivorSeeks(surv, 10, false)
 		run.SurvivorClose(surv)
 		run.Log("FAULTS OFF: %d injected, %d operations returned an error", fired, errs)
 		R.Count("fault_rounds", 1)
